@@ -485,7 +485,13 @@ std::vector<int> build(Run& R, int id, int param, bool with_control)
 			R.timer_wait(t2, 8, [r, t2, alive](boost::system::error_code const& e, std::size_t) { if (!e && alive(t2)) r->objs[std::size_t(t2)].tm->expires_after(sim::chrono::milliseconds(6)); });
 			R.at(30, [r, t2, alive]() { if (alive(t2) && r->outstanding_on(t2).empty()) r->timer_wait_noarm(t2); });
 			R.timer_wait(t3, 20, [r, t3, alive](boost::system::error_code const& e, std::size_t) { if (!e && alive(t3)) r->timer_wait(t3, 25); });
-			targets = {t0, t1, t2};
+			// armed, cancelled while nobody waits, then waited on without re-arming (the wait must still run to the old expiry
+			// and must be abortable like any other)
+			int t4 = R.add(K_TIMER, 0, "cancelled-then-waited");
+			R.objs[std::size_t(t4)].tm->expires_after(sim::chrono::milliseconds(45));
+			R.at(5, [r, t4, alive]() { if (alive(t4)) r->objs[std::size_t(t4)].tm->cancel(); });
+			R.at(10, [r, t4, alive]() { if (alive(t4) && r->outstanding_on(t4).empty()) r->timer_wait_noarm(t4); });
+			targets = {t0, t1, t2, t4};
 			break;
 		}
 		case 13: case 14:
